@@ -11,6 +11,7 @@ from ..evalmodel import Harness, ahb_tree, cond_tree, run_is_valid, tree_to_ast
 from ..fdai import Interp
 from ..fdvalues import Chooser, FuncVal, Obj, Opaque, PyRaise, StrT, explore
 from ..report import AnalysisError, Ctx, Unsupported
+from ..srcmodel import dotted, norm
 
 EXPLANATION = (
     "Language side: every terminal of both grammars is compared (DFA over the whole Unicode alphabet, shortest witness) "
@@ -185,10 +186,107 @@ def _resolver_rule(ctx: Ctx) -> None:
     ctx.units["resolver_corpus"] = len(seen)
 
 
+LOG_METHODS = {"debug": 0, "info": 0, "warning": 0, "warn": 0, "error": 0, "critical": 0, "exception": 0, "fatal": 0, "log": 1}
+ENTRY_POINTS = [f"{G.COND_MOD}.parse_condition_expression_to_tree", f"{G.AHB_MOD}.parse_ahb_expression_to_single_requirement_indicator_expressions",
+                "ahbicht.expressions.expression_resolver.parse_expression_including_unresolved_subexpressions", "ahbicht.content_evaluation.is_valid_expression"]
+
+
+def eager_log_formatters(model) -> list:
+    """Code that formats log records *outside* a handler's emit() (where logging swallows errors): logging.Filter
+    subclasses / filter callables and LogRecord factories that call getMessage() or apply `%` to record.msg, and
+    are installed somewhere in the package (addFilter / setLogRecordFactory)."""
+    installs = []
+    for mod in model.modules.values():
+        for n in ast.walk(mod.tree):
+            if isinstance(n, ast.Call) and isinstance(n.func, ast.Attribute) and n.func.attr in ("addFilter", "setLogRecordFactory"):
+                installs.append((mod, n))
+            elif isinstance(n, ast.Call) and (dotted(n.func) or "").endswith("setLogRecordFactory"):
+                installs.append((mod, n))
+    if not installs:
+        return []
+    eager = []
+    for fn in model.functions.values():
+        for n in ast.walk(fn.node):
+            if isinstance(n, ast.Call) and isinstance(n.func, ast.Attribute) and n.func.attr == "getMessage":
+                eager.append((fn, n))
+            elif isinstance(n, ast.BinOp) and isinstance(n.op, ast.Mod) and isinstance(n.left, ast.Attribute) and n.left.attr == "msg":
+                eager.append((fn, n))
+    return eager
+
+
+def unsafe_log_calls(model, fn) -> list:
+    """logging calls whose *format string* is built from run-time values while format arguments are passed as well:
+    logging then evaluates `<text containing the value> % args`, which raises for a stray '%' in the value."""
+    out = []
+    for n in walk_shallow_fn(fn.node):
+        if not (isinstance(n, ast.Call) and isinstance(n.func, ast.Attribute) and n.func.attr in LOG_METHODS):
+            continue
+        recv = (dotted(n.func.value) or "")
+        if "log" not in recv.lower():
+            continue
+        skip = LOG_METHODS[n.func.attr]
+        if len(n.args) <= skip + 1:
+            continue  # no format arguments: logging does not apply '%'
+        msg = n.args[skip]
+        dynamic = (isinstance(msg, ast.JoinedStr) and any(isinstance(v, ast.FormattedValue) for v in msg.values)) or \
+            isinstance(msg, (ast.BinOp, ast.Call, ast.Name, ast.Attribute, ast.Subscript))
+        if dynamic:
+            out.append(n)
+    return out
+
+
+def walk_shallow_fn(node):
+    from ..srcmodel import walk_shallow
+
+    return walk_shallow(node)
+
+
+def _log_format_rule(ctx: Ctx) -> None:
+    """C02.logfmt: no exception other than SyntaxError may escape - also not from the logging calls on the way. A log call
+    with a run-time built format string plus arguments is only harmful where records are formatted outside a handler
+    (a filter / record factory calling getMessage()): both sites must exist for a report."""
+    model = ctx.model
+    seen = set()
+    sites = []
+    for q in ENTRY_POINTS:
+        start = model.func(q)
+        for rq in model.reachable(start):
+            if rq in seen or rq not in model.functions:
+                continue
+            seen.add(rq)
+            fn = model.functions[rq]
+            if fn.module.name.endswith("_vstat_stub"):
+                continue
+            for call in unsafe_log_calls(model, fn):
+                sites.append((fn, call))
+    eager = eager_log_formatters(model) if sites else []
+    ctx.count(len(seen))
+    ctx.units["log_format_rule_functions"] = len(seen)
+    for fn, call in sites:
+        ctx.ob("C02.logfmt", f"{fn.qualname}::{norm(call.args[LOG_METHODS[call.func.attr]], 60)}", not eager,
+               f"{fn.qualname} logs with a format string built from run-time text plus format arguments ({norm(call, 120)}) and "
+               f"{eager[0][0].qualname if eager else '?'} formats records eagerly (outside Handler.emit): a '%' in the text raises ValueError/TypeError "
+               "from the parse path instead of SyntaxError", file=fn.file, line=call.lineno, function=fn.qualname)
+    ctx.ob("C02.logfmt", "scan", True, "")
+    # positive control: the rule recognises both halves in a tiny example
+    from ..srcmodel import SrcModel
+
+    control = ("import logging\nlogger = logging.getLogger('x')\n"
+               "class F(logging.Filter):\n    def filter(self, record):\n        return bool(record.getMessage())\n"
+               "logger.addFilter(F())\n"
+               "def f(text):\n    logger.warning(f'bad {text} (%s)', 1)\n")
+    ov = dict(model.overlay)
+    ov["src/ahbicht/_vstat_control3.py"] = control
+    cm = SrcModel(model.repo, overlay=ov)
+    ctx.require(bool(unsafe_log_calls(cm, cm.func("ahbicht._vstat_control3.f"))) and bool(eager_log_formatters(cm)), "C02.logfmt positive control not recognised")
+
+
 def check(ctx: Ctx) -> None:
     model = ctx.model
     gc = G.load(model, G.COND_MOD)
     ga = G.load(model, G.AHB_MOD)
+    G.report_options(ctx, "C02.cfg", gc, COND_FILE, skip=("ordered_sets",))  # acceptance / the unambiguous part structure do not depend on it
+    G.report_options(ctx, "C02.cfg", ga, AHB_FILE, skip=("ordered_sets",))  # acceptance / the unambiguous part structure do not depend on it
     for name, doc in DOC_COND.items():
         _terminal_rule(ctx, gc, name, doc, COND_FILE)
     for name, doc in DOC_AHB.items():
@@ -239,6 +337,7 @@ def check(ctx: Ctx) -> None:
     _parse_function_rule(ctx, G.COND_MOD, "parse_condition_expression_to_tree", COND_FILE)
     _parse_function_rule(ctx, G.AHB_MOD, "parse_ahb_expression_to_single_requirement_indicator_expressions", AHB_FILE)
     _resolver_rule(ctx)
+    _log_format_rule(ctx)
     ctx.assume("L2: with the dynamic Earley lexer Lark.parse(str) raises only UnexpectedCharacters/UnexpectedEOF; non-str input raises TypeError")
     ctx.assume("L3: exceptions raised in transformer callbacks are wrapped in VisitError(orig_exc)")
     ctx.assume("implicit interpreter exceptions (RecursionError, MemoryError) are outside the model")
